@@ -13,6 +13,7 @@ import warnings
 
 import vlib
 from vlib import gZ, gQ, gbool, gopt, glist
+from props import c16_families
 
 F = fractions.Fraction
 PID = 'C16'
@@ -60,22 +61,47 @@ KF_ZERO = 'zero_count_empties_table'
 # ---------------------------------------------------------------------------------------------------------------------
 # leaf descriptions: per channel a list of table entries [t_in_samples, value, interp]; first entry at 0
 
+_SAMPLES_CACHE = {}
+
+
 def entries_samples(entries, n):
-    """exact samples at k = 0..n-1 of a table given in sample units (later entry wins at a junction)"""
+    """exact samples at k = 0..n-1 of a table given in sample units (later entry wins at a junction); memoised (the
+    same description is sampled for the Python oracle and for the Gallina printer); callers must not mutate the result"""
+    key = (repr(entries), n)
+    hit = _SAMPLES_CACHE.get(key)
+    if hit is not None:
+        return hit
+    ent = [(F(e[0]), F(e[1]), e[2] if len(e) > 2 else None) for e in entries]
     out = []
     j = 0
     for k in range(n):
-        while j + 1 < len(entries) - 1 and F(entries[j + 1][0]) <= k:
+        while j + 1 < len(ent) - 1 and ent[j + 1][0] <= k:
             j += 1
-        t0, v0 = F(entries[j][0]), F(entries[j][1])
-        t1, v1, interp = F(entries[j + 1][0]), F(entries[j + 1][1]), entries[j + 1][2]
+        t0, v0, _ = ent[j]
+        t1, v1, interp = ent[j + 1]
         if interp == 'hold':
             out.append(v0)
         elif interp == 'jump':
             out.append(v1)
         else:
             out.append(v0 + (v1 - v0) * (k - t0) / (t1 - t0))
+    if len(_SAMPLES_CACHE) > 4000:
+        _SAMPLES_CACHE.clear()
+    _SAMPLES_CACHE[key] = out
     return out
+
+
+def desc_channels(d):
+    """output channels of a waveform description (with 'mix': linear combinations of the described inner channels)"""
+    return sorted(d['mix']) if d.get('mix') else sorted(d['chans'])
+
+
+def desc_samples(d, k, n):
+    if d.get('mix'):
+        terms = d['mix'][k]
+        cols = [entries_samples(d['chans'][i], n) for _, i in terms]
+        return [sum((F(c) * col[j] for (c, _), col in zip(terms, cols)), F(0)) for j in range(n)]
+    return entries_samples(d['chans'][k], n)
 
 
 def rle(xs):
@@ -433,6 +459,8 @@ def gen_cases(rng, tier, ctx):
                                 cc = dict(c, tree=mark(tree), cfg=dict(c['cfg'], min=mn, max=mx))
                                 cases.append(cc)
         del base
+    # deterministic families, one per input class the random stream produces rarely or never (c16_families.py)
+    cases.extend(c16_families.families(tier))
     return cases
 
 
@@ -444,9 +472,10 @@ def _num(x):
     return int(x) if x.denominator == 1 else float(x)
 
 
-def build_template(desc, rate):
+def build_template(desc, rate, rename=None):
+    """rename: description channel name -> channel id used by the template"""
     from qupulse.pulses import TablePT, ConstantPT
-    chans = desc['chans']
+    chans = desc['chans'] if rename is None else {rename(k): e for k, e in desc['chans'].items()}
     const = all(len(e) == 2 and e[0][1] == e[1][1] for e in chans.values())
     dur = F(desc['len']) / rate
     if const and desc.get('pt') == 'const':
@@ -475,7 +504,9 @@ def build_direct(tree, wobjs, counter=None):
     counter = [0] if counter is None else counter
     rep, meas, w, ch = tree[:4]
     kw = {'repetition_count': volatile_count(rep, counter) if t_vol(tree) else rep}
-    if meas:
+    if meas == 'empty':
+        kw['measurements'] = []
+    elif meas:
         kw['measurements'] = [('m', 0., 1.)]
     if not ch:
         return Loop(waveform=wobjs[w], **kw)
@@ -510,6 +541,16 @@ def read_tree(loop, order_iter, vol_ids):
     if ch:
         return [int(loop.repetition_count), bool(loop._measurements), None, ch] + vol
     return [int(loop.repetition_count), bool(loop._measurements), next(order_iter), []] + vol
+
+
+def read_back(loop, wid, vol_ids):
+    """the tree of a directly built Loop as it is NOW (after an earlier compilation restructured it in place);
+    waveforms are recognised by object identity"""
+    vp = loop.volatile_repetition
+    vol = [vol_ids.setdefault(vp, 1000 + len(vol_ids))] if vp is not None else []
+    ch = [read_back(c, wid, vol_ids) for c in loop]
+    return [int(loop.repetition_count), bool(loop._measurements),
+            None if ch else wid.get(id(loop.waveform)), ch] + vol
 
 
 def leaves(loop):
@@ -552,9 +593,22 @@ def _run_impl(case):
     from qupulse.utils.types import TimeType
     rate = F(case['rate'])
     cfg = case['cfg']
-    ident = {k: k for k in case['defined']}
-    templates = [build_template(d, rate) for d in case['wfs']]
+    names = case.get('names') or {}
+    nm = lambda k: None if k is None else names.get(k, k)          # implementation-side channel id
+    chmap = case.get('chmap') or {}                                 # template channel -> program channel
+    inv = {v: k for k, v in chmap.items()}
+    tname = lambda k: nm(inv.get(k, k))                             # the template's id of program channel k
+    has_mix = any(d.get('mix') for d in case['wfs'])
+    if has_mix:
+        templates = [build_template(d, rate) for d in case['wfs']]
+    else:
+        templates = [build_template(d, rate, tname) for d in case['wfs']]
+    mapping = {tname(k): nm(k) for k in case['defined']}
+    wobjs = None
     if case['build'] == 'template':
+        from qupulse.pulses import MappingPT
+        if chmap:
+            templates = [MappingPT(t, channel_mapping=mapping) for t in templates]
         order = []
         params = {}
         pt = build_pt(case['tree'], templates, order, params)
@@ -570,11 +624,52 @@ def _run_impl(case):
         for leaf, w in zip(lv, order):
             leaf_wf.setdefault(w, leaf.waveform)
     else:
-        wobjs = [t.build_waveform({}, ident) for t in templates]
+        if has_mix:
+            from qupulse.program.waveforms import TransformingWaveform
+            from qupulse.program.transformation import LinearTransformation
+            wobjs = []
+            for t, d in zip(templates, case['wfs']):
+                inner = t.build_waveform({}, {k: k for k in d['chans']})
+                ins = sorted(d['chans'])
+                outs = sorted(d['mix'])
+                coef = {o: {i: float(F(c)) for c, i in d['mix'][o]} for o in outs}
+                matrix = np.array([[coef[o].get(i, 0.) for i in ins] for o in outs])
+                wobjs.append(TransformingWaveform.from_transformation(inner, LinearTransformation(matrix, ins, outs)))
+        else:
+            wobjs = [t.build_waveform({}, mapping) for t in templates]
         prog = build_direct(case['tree'], wobjs)
         tree = case['tree']
         leaf_wf = dict(enumerate(wobjs))
-    used = frozenset(set(cfg['channels']) | set(cfg['markers'])) - {None}
+    chans, marks = tuple(nm(k) for k in cfg['channels']), tuple(nm(k) for k in cfg['markers'])
+    if case.get('ntuple'):
+        nc, nm_ = case['ntuple']
+        chans = (chans + (None,))[:nc] if nc > 2 else chans[:nc]
+        marks = (marks + (None,))[:nm_] if nm_ > 2 else marks[:nm_]
+    tr = [(F(a), F(b)) for a, b in cfg['trafo']]
+    trafos = tuple((lambda a, b: (lambda x: x * a + b))(float(a), float(b)) for a, b in tr)
+    amps = tuple(float(F(a)) for a in cfg['amps'])
+    offs = tuple(float(F(o)) for o in cfg['offs'])
+
+    def make_tp(cf):
+        props = {'chan_per_part': cf['cpp'], 'min_seq_len': cf['min'], 'max_seq_len': cf['max']}
+        mode = {None: None, 'single': TaborSequencing.SINGLE, 'advanced': TaborSequencing.ADVANCED}[cf['mode']]
+        return TaborProgram(prog, props, chans, marks, amps, offs, trafos,
+                            TimeType.from_fraction(rate.numerator, rate.denominator), mode)
+    first_changed = None
+    if case.get('first') is not None:
+        # stateful class: the same Loop object was compiled before (TaborProgram restructures its argument in place);
+        # the model starts from the tree as it is now, the specification from the tree as it was built
+        if wobjs is None:
+            return {'crash': 'harness: "first" needs a direct build'}
+        try:
+            make_tp(dict(cfg, **case['first']))
+        except Exception:
+            pass
+        wid = {id(w): i for i, w in enumerate(wobjs)}
+        tree = read_back(prog, wid, {})
+        if flatten_tree(tree) != flatten_tree(case['tree']):
+            first_changed = 'a first TaborProgram(...) on the same Loop changed the sequence of waveforms the Loop plays'
+    used = frozenset(set(chans) | set(marks)) - {None}
     # equality classes of the waveforms as the compiler sees them (input of the model)
     classes = {}
     cls = []
@@ -585,20 +680,10 @@ def _run_impl(case):
         else:
             cls.append(1000 + w)
     obs = {'tree': tree, 'cls': cls}
-    chans, marks = tuple(cfg['channels']), tuple(cfg['markers'])
-    if case.get('ntuple'):
-        nc, nm = case['ntuple']
-        chans = (chans + (None,))[:nc] if nc > 2 else chans[:nc]
-        marks = (marks + (None,))[:nm] if nm > 2 else marks[:nm]
-    tr = [(F(a), F(b)) for a, b in cfg['trafo']]
-    trafos = tuple((lambda a, b: (lambda x: x * a + b))(float(a), float(b)) for a, b in tr)
-    props = {'chan_per_part': cfg['cpp'], 'min_seq_len': cfg['min'], 'max_seq_len': cfg['max']}
-    mode = {None: None, 'single': TaborSequencing.SINGLE, 'advanced': TaborSequencing.ADVANCED}[cfg['mode']]
-    amps = tuple(float(F(a)) for a in cfg['amps'])
-    offs = tuple(float(F(o)) for o in cfg['offs'])
+    if first_changed:
+        obs['first_changed'] = first_changed
     try:
-        tp = TaborProgram(prog, props, chans, marks, amps, offs, trafos,
-                          TimeType.from_fraction(rate.numerator, rate.denominator), mode)
+        tp = make_tp(cfg)
     except (TaborException, ValueError, AssertionError) as e:
         obs['err'] = type(e).__name__
         return obs
@@ -635,7 +720,7 @@ def _run_impl(case):
         advt = [(1, 1, 1)] + [(r, n + 1, 0) for r, n in obs['ok']['adv']]
         as_arrays = lambda t: tuple(np.array(col) for col in zip(*t))
         pp = PlottableProgram.from_read_data(waveforms, [as_arrays(t) for t in tabs], as_arrays(advt))
-        flat = flatten_tree(tree)
+        flat = flatten_tree(case['tree'] if case.get('first') is not None else tree)
         played = [pp._segments[e.element_number - 1] for e in pp._iter_segment_table_entry() for _ in range(e.repetition_count)]
         if played or flat:
             got_a = np.asarray(pp.get_as_single_waveform(0)).astype(np.int64)
@@ -650,7 +735,7 @@ def _run_impl(case):
             ln = F(d['len'])
             if ln.denominator != 1:
                 raise ValueError('accepted a program with a non-integer leaf length')
-            samp[w] = {k: np.array([float(x) for x in entries_samples(e, int(ln))]) for k, e in d['chans'].items()}
+            samp[w] = {k: np.array([float(x) for x in desc_samples(d, k, int(ln))]) for k in desc_channels(d)}
             samp[w][None] = np.zeros(int(ln))
 
         def want_channel(i):
@@ -689,6 +774,7 @@ def _run_impl(case):
 def g_tree(t, counter=None):
     counter = [0] if counter is None else counter
     rep, meas, w, ch = t[:4]
+    meas = meas is True          # 'empty' = measurements declared as an empty list: no measurement
     if t_vol(t):
         counter[0] += 1
         vid = counter[0] if t[4] is True else int(t[4])
@@ -719,8 +805,8 @@ def g_wf(d, cls):
     ln = F(d['len'])
     n = int(ln) if ln.denominator == 1 else int(round(ln))
     data = []
-    for k in sorted(d['chans']):
-        s = rle(entries_samples(d['chans'][k], n if ln.denominator == 1 else int(ln)))
+    for k in desc_channels(d):
+        s = rle(desc_samples(d, k, n if ln.denominator == 1 else int(ln)))
         data.append('(%s, %s)' % (gZ(CH_ID[k]), glist(lambda p: '(%s, %s)' % (gQ(p[0]), gZ(p[1])), s)))
     return '(mk_wf %s %s %s [%s])' % (gZ(cls), gQ(ln), gZ(n), '; '.join(data))
 
@@ -769,6 +855,8 @@ def histogram_keys(case, obs):
         keys.append('err:' + obs['err'])
     else:
         keys.append('crash')
+    if case.get('family'):
+        keys.append('family:' + case['family'])
     if has_zero(case['tree']):
         keys.append('count:0')
     if any_vol(case['tree']):
@@ -789,6 +877,8 @@ def histogram_keys(case, obs):
 def py_spec(case, obs):
     if obs.get('err') == 'AttributeError':
         return 'TaborProgram failed with AttributeError (leaf without waveform reached the parser) instead of a TaborException'
+    if obs.get('first_changed'):
+        return obs['first_changed']
     if 'ok' not in obs:
         return None
     return obs.get('py_plays') or obs.get('py_tables')
